@@ -1,6 +1,6 @@
 From Coq Require Import ZArith List String.
 From DRX Require Import Py.PyBytes Py.Val.
-From DRX Require Model.ScoreIO Model.RiffIO Model.IndexIO Model.XtractIO Model.SndIO Model.VwscIO Model.ClutIO Model.TextIO.
+From DRX Require Model.ScoreIO Model.RiffIO Model.IndexIO Model.XtractIO Model.SndIO Model.VwscIO Model.ClutIO Model.TextIO Model.CastIO.
 Import ListNotations.
 Open Scope string_scope.
 
@@ -27,7 +27,8 @@ Definition table : list (string * (val -> val)) := [
   ("write_color_palette", Model.ClutIO.run_write_color_palette);
   ("get_palette_name", Model.ClutIO.run_get_palette_name);
   ("parse_stxt", Model.TextIO.run_parse_stxt);
-  ("parse_fmap", Model.TextIO.run_parse_fmap)
+  ("parse_fmap", Model.TextIO.run_parse_fmap);
+  ("parse_cast", Model.CastIO.run_parse_cast)
 ].
 
 Fixpoint lookup (n : string) (t : list (string * (val -> val))) : option (val -> val) :=
